@@ -21,6 +21,7 @@ by stable id only on the equal edge); (3) snapshot+subscribe under one read guar
 exit removes by (own peer id, own stable id) and never by peer id alone, and that removal lies on every path on which
 the handler task returns (after the loop, not skippable). Decides these shape facts
 for all paths; does not execute histories.
+One layer out: clones of the peer-map handle share the map, PeerId equality and hashing are the derived byte-wise ones, and the public listing / subscription are plain views of the map.
 """
 TRUSTED = ["std HashMap/Entry/RwLock semantics", "tokio broadcast channel delivers in send order"]
 NOT_DECIDED = ["lagging subscribers (broadcast capacity overflow)", "interleavings below the lock granularity"]
